@@ -212,6 +212,11 @@ func (sp *ServiceProvider) Metadata() *EntityDescriptor {
 				},
 			},
 		}
+		// Assertions are encrypted to the SP with RSA key transport: do not
+		// advertise a non-RSA (e.g. ECDSA) certificate for encryption.
+		if _, isRSA := sp.Certificate.PublicKey.(*rsa.PublicKey); !isRSA {
+			keyDescriptors = nil
+		}
 		if len(sp.SignatureMethod) > 0 {
 			keyDescriptors = append(keyDescriptors, KeyDescriptor{
 				Use: "signing",
